@@ -54,6 +54,7 @@ def main():
     innerpts = [p for p in allpts if max(abs(v) for v in p) <= 7]
     outerpts = [p for p in allpts if max(abs(v) for v in p) > 7]
     jobs, nd, meta = [], {}, {}
+    units = set()
     tid = 0
     for r in recs:
         facets = list(range(0, r['nfacets'] + 1))
@@ -114,6 +115,28 @@ def main():
                 nd[tid] = d2
                 meta[tid] = (r, k)
                 jobs.append({'tid': tid, 'deck': d2, 'opts': []})
+            if k in (0, 1) or thorough:
+                # another unit of length: the text in units of 1e-3 / 400 (thin foils, large halls), TLC keeps the exact card
+                res = adeck.unit_change(d, [0.001, 400.0][tid % 2])
+                if res is not None:
+                    tid += 1
+                    nd[tid] = d
+                    meta[tid] = (r, k)
+                    units.add(tid)
+                    jobs.append({'tid': tid, 'deck': d, 'opts': [], 'text': adeck.concretise(res[0]), 'real_points': res[1]})
+            if r['card']['k'] in ('arb', 'box', 'wed', 'rpp') and (k in (0, 1, 2) or thorough):
+                # a foil: the body squeezed to a thousandth of its size along one axis, away from the origin (bodies
+                # given by vertices and edge vectors are affine images of themselves; the sense of a point follows)
+                A = [[0.0005, 0, 0], [0, 1, 0], [0, 0, 1]] if tid % 2 else [[1, 0, 0], [0, 1, 0], [0, 0, 0.0004]]
+                bvec = [5.0, 0.0, 0.0] if tid % 2 else [0.0, -1.0, 7.0]
+                mv = adeck.affine_world(d, A, bvec)
+                if mv is not None:
+                    tid += 1
+                    nd[tid] = d
+                    meta[tid] = (r, k)
+                    units.add(tid)
+                    jobs.append({'tid': tid, 'deck': d, 'opts': [], 'text': adeck.concretise(mv),
+                                 'real_points': adeck.affine_points(d['pts'], A, bvec)})
             if k == 0 or thorough:
                 # covariance: the same deck under a general rigid motion
                 tid += 1
@@ -150,8 +173,10 @@ def main():
                     chk.machinery('baddeck for body %r' % (card,))
                 continue
             err = rec['err']
+            if tid in units and kind == 'crash' and err and err['diag']:
+                continue        # a body refused with a diagnostic at that scale is not a converted body
             sig = {'clause': kind, 'body': card['k'], 'nparam': len(card['p']), 'facet': k,
-                   'handedness': handedness(card), 'moved': tid in moved,
+                   'handedness': handedness(card), 'moved': tid in moved or tid in units,
                    'errtype': err['type'] if err else None, 'where': err['where'] if err else None}
             chk.violation(sig, {'text': rec['text'], 'card': card, 'facet': k, 'error': err,
                                 'deck': nd[tid], 'clauses': 'owner',
